@@ -373,6 +373,9 @@ class Model:
             for n in self.cls(c).body:
                 if isinstance(n, ast.Assign) and any(isinstance(t, ast.Name) and t.id == name for t in n.targets):
                     return c, n.value, "classattr"
+                if isinstance(n, ast.AnnAssign) and isinstance(n.target, ast.Name) and n.target.id == name and n.value is not None \
+                        and not any(b.endswith("NamedTuple") for b in self.bases(c)):
+                    return c, n.value, "classattr"
         return None, None, None
 
 
